@@ -1,11 +1,14 @@
 package s0202
 
 type G1 struct {
-	F2x0 *uint32
+	F0x0 int32
+}
+
+type G2 struct {
+	F1x0 int64
 }
 
 type T struct {
-	F0 int32
-	F1 []int64
-	F2 G1
+	F0 G1
+	F1 G2
 }
